@@ -243,11 +243,21 @@ func VerifC13Render() {
 			t1 = c13TrimLeft(t1)
 		}
 		if outerFacing {
-			want := t0 + t1
-			if k == 6 {
-				want = t0 + ps[2].text + t1
+			if k == 5 {
+				nd.Assert(trimmed == t0+t1, "B-comment-inner-hyphens-remove-nothing-outside")
+			} else {
+				// raw: an inner hyphen faces the verbatim body; it may leave it alone or strip
+				// the body's adjacent whitespace, but never touches the text outside
+				body := ps[2].text
+				alt := body
+				if ps[1].trimR {
+					alt = c13TrimLeft(alt)
+				}
+				if ps[3].trimL {
+					alt = c13TrimRight(alt)
+				}
+				nd.Assert(trimmed == t0+body+t1 || trimmed == t0+alt+t1, "B-raw-inner-hyphens-touch-only-the-body")
 			}
-			nd.Assert(trimmed == want, "B-comment-raw-inner-hyphens-are-inert")
 		}
 	}
 	nd.Reach("C13.render")
